@@ -15,10 +15,12 @@ Theorem c15_order_independent : forall st q rs rs',
 Proof. intros; split; [by eapply run_batch_perm|by eapply run_stream_perm]. Qed.
 Print Assumptions c15_order_independent.
 
-(* The aggregate is the union / the sums of the replies, whatever the order. *)
-Theorem c15_union_sum : forall st rs,
+(* The aggregate that is finalized (run_batch st rs = finalize st (st_num st) (aggregate rs)) is the union /
+   the sums of the replies, whatever the order.  Without time binning the finalization leaves it as it is;
+   with time binning BinTime replaces the hit count by the number of binned rows (see Model.fin_hits). *)
+Theorem c15_union_sum : forall rs,
   hosts_distinct rs -> rows_wf rs ->
-  let A := (run_batch st rs).1 in
+  let A := (aggregate rs).1 in
   (* rows: the union of the hosts' rows, counters of equal keys summed (mod 2^64) *)
   (forall k, a_rows A !! k = match key_counters k (all_rows rs) with [] => None | cs => Some (csum cs) end) /\
   (* totals and statistics: sums over the successful replies *)
@@ -36,6 +38,10 @@ Theorem c15_union_sum : forall st rs,
   a_first A = spec_first rs /\ a_last A = spec_last rs.
 Proof. exact union_sum. Qed.
 Print Assumptions c15_union_sum.
+
+Theorem c15_finalize_keeps_aggregate : forall st rs, st_bin st = 0 -> (run_batch st rs).1 = (aggregate rs).1.
+Proof. exact run_batch_agg_nobin. Qed.
+Print Assumptions c15_finalize_keeps_aggregate.
 
 (* The result returned by a streaming query (a partial finalization with limit 100 after every
    successful reply) equals the result of the same query without streaming -- no hypothesis at all. *)
@@ -58,7 +64,11 @@ Definition ex_c : host_result :=     (* overlaps with ex_b *)
 Definition ex_e : host_result :=     (* failed host, wrapped error *)
   HR "h3" (Some ("failed to run: EOF", Some "EOF"))%string [] [] [] ([], "")%string 0 0 c0 None 0.
 Definition ex_rs := [ex_a; ex_e; ex_b; ex_c].
-Definition ex_st := Stmt 2 1 false 1000.
+Definition ex_st := Stmt 2 1 false 1000 0.
+Definition ex_st_bin := Stmt 3 1 true 1000 600.
+Definition ex_k3 : key := (1700000300, 4, "eth0", "a", "", 1, 3, 6, 443)%string.
+Definition ex_d : host_result :=     (* a row in the same 10-minute bin as ex_k2 *)
+  HR "h4" None [("h4", ("ok", ""))]%string [(ex_k3, C 4 0 1 0)] [] ex_q 60 300 c0 None 1.
 
 Lemma ex_hyps : hosts_distinct ex_rs /\ same_query ex_q ex_rs /\ rows_wf ex_rs.
 Proof.
@@ -92,8 +102,8 @@ Qed.
 Example c15_union_sum_nonvacuous :
   hosts_distinct ex_rs /\ rows_wf ex_rs /\
   key_counters ex_k2 (all_rows ex_rs) = [C (M64 - 1) 0 1 0; C 2 0 1 0] /\
-  a_rows (run_batch ex_st ex_rs).1 !! ex_k2 = Some (C 1 0 2 0) /\
-  a_hits (run_batch ex_st ex_rs).1 = 2 /\ zsum (hr_hits <$> oks ex_rs) = 3.
+  a_rows (aggregate ex_rs).1 !! ex_k2 = Some (C 1 0 2 0) /\
+  a_hits (aggregate ex_rs).1 = 2 /\ zsum (hr_hits <$> oks ex_rs) = 3.
 Proof.
   destruct ex_hyps as (H1 & _ & H3). split; [exact H1|]. split; [exact H3|]. vm_compute. repeat split; reflexivity.
 Qed.
@@ -101,5 +111,8 @@ Qed.
 (* an early reply without rows: the streamed result still ends with status ok and all rows *)
 Example c15_streaming_equals_batch_nonvacuous :
   (partial_obs <$> partials ex_st acc0 ex_rs) = [(0, 0, "missing data"); (2, 2, "ok"); (2, 2, "ok")]%string /\
-  o_status (run_stream ex_st ex_rs).2 = ST_OK /\ o_displayed (run_stream ex_st ex_rs).2 = 2.
+  o_status (run_stream ex_st ex_rs).2 = ST_OK /\ o_displayed (run_stream ex_st ex_rs).2 = 2 /\
+  (* with a 10-minute resolution two of the three rows fold into one bin; BinTime sets the hit count to 2 *)
+  a_hits (run_stream ex_st_bin (ex_rs ++ [ex_d])).1 = 2 /\ a_hits (aggregate (ex_rs ++ [ex_d])).1 = 3 /\
+  zlen (o_rows (run_stream ex_st_bin (ex_rs ++ [ex_d])).2) = 2.
 Proof. vm_compute. repeat split; reflexivity. Qed.
